@@ -268,11 +268,13 @@ CLAIMED = {
    text="PARTIAL - deductive proof of the clauses listed here on the real source, bounded stand-ins (never counted as proved) for the rest of the property. tools.get_logical_line for ALL sources and line indices: the logical line containing line i starts at the FIRST line of the maximal chain of continuation "
         "links ending at i (a link = previous line ends with a continuation, or the text before ends inside an open triple-quoted string) - loop invariant for "
         "the backward walk with a termination variant, for chains of any length; it spans >= 1 lines and stays inside the source (second loop, with "
-        "variant). Bounded stand-ins (not proved): 11 command lines x 1..4 (thorough 5) physical lines x 7 statement positions (top level, after `;`, if / for-in-def "
+        "variant). Termination of the wrap-and-reparse loop (Execer._parse_ctx_free._try_parse): every iteration leaves the loop or consumes one unit of a retry budget "
+        "fixed before it (variant max_retries, invariant max_retries >= 0; the try-body abstracted - it never assigns the budget). "
+        "Bounded stand-ins (not proved): 11 command lines x 1..4 (thorough 5) physical lines x 7 statement positions (top level, after `;`, if / for-in-def "
         "/ try / with / while-in-if-in-def) x {no chain, &&, and, ||}: the bare source and the hand-wrapped ![...] source compile to the same program through the "
         "real Execer; C02's probe programs (names bound only in inner scopes do not stop the wrap).",
-   note="KNOWN FINDING (recorded): a chain segment that is also valid Python (`ls -l /tmp && ...`) is wrapped without in_boolop=True. Unverified: _parse_ctx_free's "
-        "retry loop and its termination for ALL input strings (the property's second sentence - only exercised by the bounded check), subproc_toks / find_next_break / "
+   note="KNOWN FINDING (recorded): a chain segment that is also valid Python (`ls -l /tmp && ...`) is wrapped without in_boolop=True. Unverified: termination of the "
+        "parser / lexer / helper calls inside the retry loop's body and its depth-1 recursion (so 'for all input strings' is proved only modulo those), subproc_toks / find_next_break / "
         "_abs_lexpos / balanced_parens, replace_logical_line, strip_continuation_comments, _have_open_triple_quotes (a ghost predicate here), "
         "CtxAwareTransformer.try_subproc_toks / _column_window, the lexer's whitespace synthesis. Trusted: pyvc engine + models + z3.",
    design="§3 C03"),
